@@ -46,13 +46,23 @@ class Markers(object):
         recent = getattr(self, "recent", None)
         if recent and rnd.random() < 0.3:
             return recent[-1] if rnd.random() < 0.5 else rnd.choice(recent)
-        if recent and rnd.random() < 0.1:
+        follow = getattr(self, "follow", None)
+        if follow and rnd.random() < 0.6:
+            # ... and then one of the two codes again, with another parameter
+            self.follow = None
+            self.n += 1
+            cmd = "%s %s%d" % (rnd.choice(follow), rnd.choice(["X", "S", "T", "P"]), self.n)
+            self.recent = (recent + [cmd])[-5:]
+            return cmd
+        if recent and rnd.random() < 0.15:
             # the parameter text of a recent command under another code (M204 S500 ... M205 S500)
             params = recent[-1].split(" ", 1)[1] if " " in recent[-1] else ""
             others = [c for c in sorted(self.ext) if c not in ("M117",) and c != recent[-1].split(" ")[0]]
             if params and others and not recent[-1].startswith("M117"):
-                cmd = "%s %s" % (rnd.choice(others), params)
+                other = rnd.choice(others)
+                cmd = "%s %s" % (other, params)
                 self.recent = (recent + [cmd])[-5:]
+                self.follow = [other, recent[-1].split(" ")[0]]
                 return cmd
         cmd = self.fresh(rnd)
         self.recent = (getattr(self, "recent", []) + [cmd])[-5:]
